@@ -72,6 +72,47 @@ fn main() {
         println!("{} => {}", op, out);
       }
     }
+    Some("strbif") => {
+      // BOUNDED stand-in (not a proof): substring before / substring after / contains / starts with / ends with over all
+      // strings of length <= 3 and match strings of length <= 2 from an alphabet of 1-, 2-, 3- and 4-byte characters,
+      // against a character-sequence reference; every call under catch_unwind.
+      let alphabet: Vec<char> = vec!['a', 'b', 'ż', '€', '🐎'];
+      let mut strings: Vec<String> = vec![String::new()];
+      let mut frontier = vec![String::new()];
+      for _ in 0..3 {
+        let mut next = vec![];
+        for s in &frontier { for c in &alphabet { let mut t = s.clone(); t.push(*c); next.push(t); } }
+        strings.extend(next.iter().cloned());
+        frontier = next;
+      }
+      let matches: Vec<String> = strings.iter().filter(|s| s.chars().count() <= 2).cloned().collect();
+      let mut cases = 0usize;
+      let mut failures: Vec<String> = vec![];
+      for s in &strings {
+        for m in &matches {
+          let sc: Vec<char> = s.chars().collect();
+          let mc: Vec<char> = m.chars().collect();
+          let found = if mc.is_empty() { Some(0) } else { (0..sc.len()).find(|i| sc.len() - i >= mc.len() && sc[*i..*i + mc.len()] == mc[..]) };
+          let (exp_before, exp_after): (String, String) = match found {
+            Some(i) => (sc[..i].iter().collect(), sc[i + mc.len()..].iter().collect()),
+            None => (String::new(), String::new()),
+          };
+          for (bif, expected) in [("substring before", format!("\"{}\"", exp_before)), ("substring after", format!("\"{}\"", exp_after)),
+                                  ("contains", format!("{}", found.is_some())),
+                                  ("starts with", format!("{}", sc.len() >= mc.len() && sc[..mc.len()] == mc[..])),
+                                  ("ends with", format!("{}", sc.len() >= mc.len() && sc[sc.len() - mc.len()..] == mc[..]))] {
+            let expr = format!("{}(\"{}\",\"{}\")", bif, s, m);
+            let out = eval(&expr);
+            cases += 1;
+            if out != format!("VALUE {}", expected) && failures.len() < 5 {
+              failures.push(format!("{} => {} (expected {})", expr, out, expected));
+            }
+          }
+        }
+      }
+      println!("strbif cases={} failures={}", cases, failures.len());
+      for f in failures { println!("FAIL {}", f); }
+    }
     _ => eprintln!("usage"),
   }
 }
